@@ -79,12 +79,13 @@ Proof.
     destruct (alt && negb ig); prt.
 Qed.
 
-Lemma strip_flag_starts_aux_forall (P : N -> Prop) fuel : forall s, Forall P s -> Forall P (strip_flag_starts_aux fuel s).
+Lemma strip_flag_starts_aux_forall (P : N -> Prop) fuel : forall b s, Forall P s -> Forall P (strip_flag_starts_aux fuel b s).
 Proof.
-  induction fuel as [|f IH]; intros s H; cbn [strip_flag_starts_aux]; auto.
-  destruct s as [|c s']; [constructor|].
-  destruct (flag_group_here 41 (c :: s')); [apply IH; apply Forall_skipn; auto|].
-  inversion H; subst. constructor; auto.
+  induction fuel as [|f IH]; intros b s H; cbn [strip_flag_starts_aux]; auto.
+  destruct s as [|c s']; [constructor|]. inversion H; subst.
+  destruct (flag_group_here 41 (c :: s')).
+  - destruct (is_escaped_rev b); [constructor; auto|]. apply IH. apply Forall_skipn; auto.
+  - constructor; auto.
 Qed.
 
 Lemma strip_flag_groups_printable fuel : forall s from out,
@@ -297,8 +298,9 @@ Qed.
 (* the case the property names: an ESCAPED parenthesis followed by ?i: is ordinary text
    (repaired in /repo, fix: 818337f; before the repair this was Crash crash_index) *)
 Example escaped_paren_is_text :
-  dont_use_flags $"\(?i:x" = Ok $"\(?i:x" /\ dont_use_flags $"a(?i:x|y)b\(?i:z" = Ok $"a(?:x|y)b\(?i:z".
-Proof. split; vm_compute; reflexivity. Qed.
+  dont_use_flags $"\(?i:x" = Ok $"\(?i:x" /\ dont_use_flags $"a(?i:x|y)b\(?i:z" = Ok $"a(?:x|y)b\(?i:z" /\
+  dont_use_flags $"(\(?i)" = Ok $"(\(?i)" /\ dont_use_flags $"a(?s)b" = Ok $"ab".
+Proof. repeat split; vm_compute; reflexivity. Qed.
 
 (* an UNBALANCED flag group still runs off the end of the text; the optimiser never prints one
    (hypothesis on the Join oracle, checked on every Join answer by the correspondence runs) *)
